@@ -15,7 +15,7 @@ def in_scope(t):
     rerun / skip and executor faults are not."""
     p = t['prog']
     m = t['meta']
-    if m.get('c20') or p['type'] != 'direct':
+    if m.get('c20'):
         return False
     if any(o['op'] not in ('pause', 'resume', 'stop', 'rerun', 'skip', 'wait') for o in (m.get('ops') or [])):
         return False
@@ -40,7 +40,7 @@ def def_tla(prog):
 
 
 INVARIANTS = ['TypeOK', 'NoHangM', 'NoWaitingAtRestM', 'JoinOnceM', 'StartOnceM', 'FinalIffLastM', 'StopAtFirstSuccessM',
-              'OnePerIndexM', 'WithinLimitM', 'CompleteAfterAllM', 'FailOnAppliedM', 'PauseBeforeM']
+              'OnePerIndexM', 'WithinLimitM', 'CompleteAfterAllM', 'FailOnAppliedM', 'PauseBeforeM', 'ReqGateM']
 PROPERTIES = ['JoinGateM', 'FinishedFrozenM', 'ResultOnceM', 'SuccessStickyM', 'LegalWfM', 'NoNewTasksWhilePausedM', 'NoNewTasksAfterStopM',
               'PauseAckM', 'StopAckM', 'DupNoEffectM', 'RerunAckM', 'SkipAckM']
 
